@@ -28,6 +28,7 @@ from ser import Ser, Unsupported
 from props import c03 as J
 
 LEAN_MODULE = "Optyx.Props.C19"
+EXTRA_MODULES = ["Optyx.Props.PinsC19"]   # transcription anchors (harness/source_pins.py)
 THEOREMS = [
     "Optyx.Props.Closures.closureTables_agree",
     "Optyx.Props.Closures.sanitizeShape_agrees",
@@ -36,6 +37,7 @@ THEOREMS = [
     "Optyx.Props.C19.derivative_outputs_finite",
     "Optyx.Props.C19.paths_agree_on_specials",
     "Optyx.Props.C19.regular_unchanged",
+    "Optyx.Props.PinsC19.anchors",
 ]
 ASSUMPTIONS = [
     "finite input points; overflow of a finite intermediate (exp(1000)) is not a singular point of the derivative and "
